@@ -70,6 +70,8 @@ void generate(sim::Rng &r, uint64_t seed, const std::string &tier, sim::Plan &p)
       sim::Op op; op.kind = "call";
       long dt = r.chance(400) ? 0 : r.chance(600) ? r.range(1, 400) : r.range(400, 3000);
       op.a = {dt, (long)r.below(6), (long)(r.next() & 0xffffff), r.chance(850) ? 1 : 0, r.pick((const long[]){1, 10, 500, 1200, 2500, 6000}), r.chance(350) ? 1 : 0};   // last: re-issue the request from inside the callback when it times out
+      // the link is used in both directions: now and then the peer asks this endpoint for something (answered at once, later, or never)
+      if (r.chance(250)) { op.kind = "pcall"; op.a = {dt, (long)r.below(3), r.pick((const long[]){1, 10, 500, 1200, 2500, 6000})}; }
       p.ops.push_back(op);
     }
     int ns = (int)r.range(1, 6);
@@ -299,6 +301,7 @@ struct RpcWorld {
   std::vector<Call> calls;
   std::map<int, size_t> by_rpc_id;
   bool pump_posted = false;
+  std::vector<int> peer_cbs;      // completion callbacks of the requests the peer made
   int64_t last_at_a2b = 0, last_at_b2a = 0;
 };
 RpcWorld *R = nullptr;
@@ -449,11 +452,32 @@ void run_requests(const sim::Plan &plan) {
     return false;
   });
 
+  // services on A, asked for by the peer (endpoint B uses the same Rpc class, so its ids also count 1, 2, 3, ...)
+  W.ra->addService("aecho", [](int, const Json &params, int &, Json &res) { res = params; return true; });
+  W.ra->addService("alater", [](int id, const Json &params, int &, Json &) {
+    long d = params.is_number_integer() ? params.get<long>() : 1;
+    R->tp->doAfter(std::chrono::milliseconds(std::max(1L, d)), [id] { R->ra->respond(id, Json("late")); });
+    return false;
+  });
+  W.ra->addService("anever", [](int, const Json &, int &, Json &) { return false; });
+
   static drv::Timeline tl;
   tl = drv::Timeline();
   int64_t t = sim::now_ns();
   for (size_t i = 0; i < plan.ops.size(); ++i) {
     const sim::Op *op = &plan.ops[i];
+    if (op->kind == "pcall") {
+      t += std::max(0L, std::min(10000L, op->arg(0))) * 1000000;
+      tl.at(t, [op] {
+        R->loop->runInLoop([op] {
+          static const char *PM[] = {"aecho", "alater", "anever"};
+          size_t k = R->peer_cbs.size(); R->peer_cbs.push_back(0);
+          R->rb->request(PM[((op->arg(1) % 3) + 3) % 3], Json(std::max(1L, std::min(20000L, op->arg(2)))), [k](int, const Json &) { ++R->peer_cbs[k]; });
+          sim::probe("peer_requests");
+        }, "c14.pcall");
+      }, (int)i);
+      continue;
+    }
     if (op->kind != "call") continue;
     t += std::max(0L, std::min(10000L, op->arg(0))) * 1000000;
     tl.at(t, [op] {
@@ -505,6 +529,7 @@ void run_requests(const sim::Plan &plan) {
     }
     // in the window in between both outcomes are acceptable
   }
+  for (size_t i = 0; i < W.peer_cbs.size(); ++i) if (W.peer_cbs[i] != 1) { sim::violation(W.peer_cbs[i] == 0 ? "C14/request-callback-never-invoked" : "C14/request-callback-invoked-twice", sim::fmt("request #%zu made by the peer endpoint: completion callback invoked %d times", i, W.peer_cbs[i])); break; }
   delete W.ra; delete W.rb;
   W.pa.reset(); W.pb.reset();
   delete W.tp;
